@@ -184,6 +184,12 @@ pub fn run_base<T: Serialize + Deserialize + WithSchema + Packed + Canon>(op: &s
                 Ok(b) => b,
                 Err(e) => return format!("ERR schema {}", err_class(&e)),
             };
+            // today's Schema writer does not gate every field on the format version: only sections that the reader of that
+            // format consumes completely are faithful old-format sections
+            match crate::schema_ops::de_schema(fmt, &body) {
+                Ok((_, used)) if used == body.len() => {}
+                _ => return "SKIP schema section not expressible in that format".to_string(),
+            }
             let mut payload = Vec::new();
             if let Err(e) = Serializer::bare_serialize(&mut payload, version, &vals[idx]) {
                 return format!("ERR payload {}", err_class(&e));
